@@ -24,12 +24,17 @@ structure Cfg.Good (c : Cfg) : Prop where
   reconnect : c.reconnectLoop = stdLoop
   creditAtomic : c.creditAtomic = true
   reconnectAtomic : c.reconnectAtomic = true
+  creditClock : c.creditClock = true
+  reconnectClock : c.reconnectClock = true
 
 instance (c : Cfg) : Decidable c.Good :=
   if h : c.tbl.adequate = true ∧ c.creditLoop = stdLoop ∧ c.reconnectLoop = stdLoop ∧
-      c.creditAtomic = true ∧ c.reconnectAtomic = true
-  then isTrue ⟨h.1, h.2.1, h.2.2.1, h.2.2.2.1, h.2.2.2.2⟩
-  else isFalse fun g => h ⟨g.tbl, g.credit, g.reconnect, g.creditAtomic, g.reconnectAtomic⟩
+      c.creditAtomic = true ∧ c.reconnectAtomic = true ∧ c.creditClock = true ∧ c.reconnectClock = true
+  then isTrue ⟨h.1, h.2.1, h.2.2.1, h.2.2.2.1, h.2.2.2.2.1, h.2.2.2.2.2.1, h.2.2.2.2.2.2⟩
+  else isFalse fun g => h ⟨g.tbl, g.credit, g.reconnect, g.creditAtomic, g.reconnectAtomic, g.creditClock, g.reconnectClock⟩
+
+theorem Cfg.Good.clockOf {c : Cfg} (g : c.Good) (k : Kind) : c.clockOf k = true := by
+  cases k <;> simp [Cfg.clockOf, g.creditClock, g.reconnectClock]
 
 theorem Cfg.Good.atomicOf {c : Cfg} (g : c.Good) (k : Kind) : c.atomicOf k = true := by
   cases k <;> simp [Cfg.atomicOf, g.creditAtomic, g.reconnectAtomic]
@@ -199,7 +204,7 @@ theorem NoLost.step {c : Cfg} (g : c.Good) {k : Kind} {st : St} (h : NoLost k st
   | check ex =>
     simp only [Repe.Condvar.step]
     split
-    · rw [g.loopOf, g.atomicOf]
+    · rw [g.loopOf, g.atomicOf, g.clockOf, Bool.and_true]
       cases hp : pred k st.sh with
       | true =>
         obtain ⟨s', hs', _⟩ := runBody_std_true k ex st.sh hp
@@ -285,7 +290,7 @@ theorem Bound.step {c : Cfg} (g : c.Good) {k : Kind} {r : Ret} {sh0 : Sh} {st : 
     | check ex =>
       simp only [Repe.Condvar.step]
       split
-      · rw [g.loopOf, g.atomicOf]
+      · rw [g.loopOf, g.atomicOf, g.clockOf, Bool.and_true]
         obtain ⟨s', hs', _⟩ := runBody_std_true k ex st.sh hp
         rw [hs']; left; simp [hx]
       · right; exact ⟨hpc, hp, hx, hs, hm⟩
@@ -325,7 +330,7 @@ theorem check_return {c : Cfg} (g : c.Good) {k : Kind} {st : St} {e : Bool} {r :
   split at h
   · rename_i hck
     refine ⟨hck, ?_⟩
-    rw [g.loopOf, g.atomicOf] at h
+    rw [g.loopOf, g.atomicOf, g.clockOf, Bool.and_true] at h
     cases hp : pred k st.sh with
     | true =>
       obtain ⟨s', hs', _⟩ := runBody_std_true k e st.sh hp
